@@ -115,8 +115,8 @@ func scenarioC09(r *Run) {
 			cur, faulted = append(append([]byte{}, tg[:len(tg)-1]...), cur...), true
 			r.Fired("outertag")
 		} else {
-			kinds := []string{"rewidth", "keyreorder", "unprot-edit", "algtext"}
-			if out, k, ok := StructFault(t, cur, kinds[t.Choose(4, "c09.fault.kind")]); ok {
+			kinds := []string{"rewidth", "keyreorder", "unprot-edit", "algtext", "algother"}
+			if out, k, ok := StructFault(t, cur, kinds[t.Choose(5, "c09.fault.kind")]); ok {
 				cur, faulted = out, true
 				r.Fired(k)
 			}
